@@ -229,7 +229,12 @@ def _interpreted(tier):
             for n1 in range(1, T):
                 Ctx.reset()
                 a, st1 = ISim(mod).run(ext(mod, 0, n1), delta_t=dt, return_states=True)
+                snap1 = {k: list(np.asarray(v, dtype=object).reshape(-1)) for k, v in st1.items()}
                 b, st2 = ISim(mod).run(ext(mod, n1, T), delta_t=dt, all_states=st1, return_states=True)
+                untouched = sorted(snap1) == sorted(st1) and all(len(snap1[k]) == len(np.asarray(st1[k], dtype=object).reshape(-1)) and
+                                                                 all((x is y) or (isinstance(x, Sym) and isinstance(y, Sym) and x.e.eq(y.e)) or (not isinstance(x, Sym) and x == y)
+                                                                     for x, y in zip(snap1[k], np.asarray(st1[k], dtype=object).reshape(-1))) for k in snap1)
+                out["results"].append(_res(f"interpreted integrate[{name}]:the states handed in as all_states are left untouched by a continuation of {T - n1} step(s) (they can be used again)", untouched, backend="structural"))
                 ok = same(np.asarray(full, dtype=object)[:, :n1 + 1], a) and same(np.asarray(full, dtype=object)[:, n1:], b)
                 out["results"].append(_res(f"interpreted integrate[{name}]:{n1}+{T - n1} steps in one call == {n1} steps then {T - n1} from the returned states (all recorded terms, the seam column included)", ok, backend="structural"))
                 oks = sorted(stf) == sorted(st2) and all(same(stf[k], st2[k]) for k in stf)
